@@ -25,7 +25,7 @@ def sq(x0, y0, x1, y1):
     return ((x0, y0), (x1, y0), (x1, y1), (x0, y1), (x0, y0))
 
 
-def make_frame(n=16, shift=0, scale=1, reverse=False):
+def make_frame(n=16, shift=0, scale=1, reverse=False, half=False):
     import pandas as pd
     from spatialpandas import GeoDataFrame
     order = list(range(n))[::-1] if reverse else list(range(n))
@@ -38,6 +38,8 @@ def make_frame(n=16, shift=0, scale=1, reverse=False):
     if n > 9:
         pts[8] = None
         pts[9] = None           # with 8 or 16 partitions a whole partition of missing points
+    if half and n > 12:
+        pts[12] = (500.0, NAN)  # finite on one axis only: no box, but its x still belongs to the extent of its partition
     return GeoDataFrame({
         "polys": L.make_array("polygon", polys, "float64"),
         "val": np.arange(n) + 1000 * shift,
@@ -67,9 +69,7 @@ def extent_of(series):
         flat_coords(v, c)
         xs += [a for a in c[0::2] if math.isfinite(a)]
         ys += [a for a in c[1::2] if math.isfinite(a)]
-    if not xs:
-        return (NAN, NAN, NAN, NAN)
-    return (min(xs), min(ys), max(xs), max(ys))
+    return (min(xs) if xs else NAN, min(ys) if ys else NAN, max(xs) if xs else NAN, max(ys) if ys else NAN)
 
 
 def same(a, b):
@@ -96,6 +96,17 @@ def write_dataset(P, path, writer, nparts):
         _ = ddf.geometry.total_bounds, ddf["polys"].partition_bounds
         keep = P["val"].tolist()[1::2] + P["val"].tolist()[:2]
         ddf[ddf["val"].isin(keep)].to_parquet(path)
+    elif writer == "to_parquet_after_sindex":
+        # history: only the ACTIVE column's partition bounds are cached (a spatial query was made) before the frame is written
+        if nparts % 2:
+            # ... and the active column is the FIRST geometry column (the cached column precedes an uncached one)
+            ddf = dd.from_pandas(P.set_geometry("polys"), npartitions=min(nparts, len(P)))
+        ddf.partition_sindex
+        ddf.cx[0:1, 0:1]
+        ddf.to_parquet(path)
+    elif writer == "to_parquet_built_sindex":
+        # history: every partition carries a built spatial index when the frame is written
+        ddf.build_sindex().to_parquet(path)
     elif writer == "cx_partitions":
         # history: whole partitions selected with cx_partitions (a scattered set: rows with y in [0.5, 3.5] are rows 5, 7, 14),
         # and the selection written
@@ -151,7 +162,7 @@ def check_dataset(col, scratch, writer, nparts, multi, thorough, seed, variant="
     case0 = {"writer": writer, "npartitions": nparts, "multi": multi, "variant": variant}
     # variant "thirds": coordinates k/3 (no short decimal expansion); "rewrite": the dataset replaces, at the same path and in
     # the same process, one with the same schema, partition count and equally long metadata that was already read
-    P = make_frame(16, scale=3 if variant == "thirds" else 1, shift=10 if variant == "rewrite" else 0)
+    P = make_frame(16, scale=3 if variant == "thirds" else 1, shift=10 if variant == "rewrite" else 0, half=(variant == "halffinite"))
     if variant == "rewrite":
         from spatialpandas.io import read_parquet_dask as _rpd
         prev_path = os.path.join(base, "ds.parq")
@@ -401,6 +412,12 @@ def run(ctx):
                 (("single",) + ((("list", "glob", "list_reversed")[(nparts + ctx.seed) % 3],) if nparts in (2, 5, 11, 12, 16) else ()))
             for m in multis:
                 units.append((writer, nparts, m))
+    for writer in ("to_parquet", "to_parquet_built_sindex", "pack"):
+        for nparts in (3, 12):
+            units.append((writer, nparts, "single", "halffinite"))
+    for nparts in (3, 4, 11, 12):
+        units.append(("to_parquet_after_sindex", nparts, "single"))
+        units.append(("to_parquet_built_sindex", nparts, "single"))
     for nparts in (5, 9, 12, 16):
         units.append(("cx_partitions", nparts, "single"))
     units.append(("cx_partitions", 16, "list"))
